@@ -8,6 +8,7 @@ import (
 	"fmt"
 	"hash/fnv"
 	"io/ioutil"
+	"math"
 	"net"
 	"net/http"
 	"net/url"
@@ -164,6 +165,9 @@ func getGrafanaNetAddr(addr string) (string, string, string) {
 func NewGrafanaNet(key string, matcher matcher.Matcher, cfg GrafanaNetConfig) (Route, error) {
 	if cfg.Concurrency < 1 || cfg.BufSize < 0 || cfg.FlushMaxNum < 1 || cfg.FlushMaxWait <= 0 {
 		return nil, errors.New("NewGrafanaNet: concurrency, flushMaxNum and flushMaxWait must be > 0 and bufSize must be >= 0")
+	}
+	if cfg.Concurrency > math.MaxInt32 || cfg.BufSize > math.MaxInt32 || cfg.FlushMaxNum > math.MaxInt32 {
+		return nil, errors.New("NewGrafanaNet: concurrency, bufSize and flushMaxNum this large cannot be allocated")
 	}
 	schemas, err := getSchemas(cfg.SchemasFile)
 	if err != nil {
